@@ -57,6 +57,7 @@ func (x *Run) runFrame(fr *Frame, args []Val, bindings []Val, st *State) []Outco
 			}
 			fr.env[p] = v
 			fr.names[p.Name()] = v
+			fr.names[p.Name()+"@entry"] = v // the value the caller passed (loop annotations)
 		}
 	}
 	for i, fv := range fn.FreeVars {
